@@ -80,6 +80,61 @@ def check_record(args):
     return out
 
 
+# ------------------------------------------------------------ (C) the 1 % clause itself, true kernel
+
+def true_case(args):
+    """near field of injected pulse currents against the fields of these currents and their charges evaluated with the
+       TRUE kernel by numerical integration on the geometry of the specification's pulse table, at points at least
+       one segment length from every conductor and image; 1 % of the field magnitude"""
+    rec, ground, sd, k_ = args
+    out = dict(mism=[], exc=None, n=0, maxdev=0.0)
+    N = len(rec.get('pulses', []))
+    pairs = [frozenset((o['p1'], o['p2'])) for o in rec.get('input', [])]
+    if rec.get('reject') or N == 0 or len(set(pairs)) != len(pairs):
+        return out
+    rnd = random.Random('%s/true/%s/%s' % (sd, C.h(rec['input']), k_))
+    try:
+        lam = 10.0
+        f = 299.8 / lam
+        unit = lam * rnd.choice([0.03, 0.05, 0.08])
+        radius = lam * rnd.choice([3e-5, 3e-4])
+        m, geo = L.build_pair(rec, rnd, ground, f, unit, radius)
+        if len(m.pulses) != N:
+            out['mism'].append(dict(what='pulse-count'))
+            return out
+        I = np.array([complex(rnd.uniform(-1, 1), rnd.uniform(-1, 1)) for _ in range(N)])
+        m.current = I
+        m.power = rnd.choice([1.0, 0.25, 40.0])
+        pw = rnd.choice([None, 100.0])
+        fac = math.sqrt((pw or m.power) / m.power)
+        k = 2 * math.pi / lam
+        kinds = [p['kind'] for p in rec['pulses']]
+        tries = 0
+        while out['n'] < 3 and tries < 40:
+            tries += 1
+            r = np.array([rnd.uniform(-3, 7), rnd.uniform(-3, 7), rnd.uniform(0.2, 8)]) * unit
+            cl = geo.clearance(r)
+            if cl < 1.0 or (out['n'] == 0 and cl > 3.0 and tries < 25):
+                continue                    # the first point close to the structure (1 .. 3 segment lengths)
+            m.compute_near_field(tuple(r), (1, 1, 1), (1, 1, 1), **({'pwr': pw} if pw else {}))
+            e, h = np.array(m.e_field[0]), np.array(m.h_field[0])
+            E, H = geo.true_fields(I, k, m.m, r, 1e-4 * lam)
+            E, H = E * fac, H * fac
+            out['n'] += 1
+            de = np.linalg.norm(e - E) / np.linalg.norm(E)
+            dh = np.linalg.norm(h - H) / np.linalg.norm(H)
+            out['maxdev'] = max(out['maxdev'], de, dh)
+            if de > 1e-2 or dh > 1e-2:
+                out['mism'].append(dict(what='near-field-true-kernel', dE=float(de), dH=float(dh), clearance=float(cl),
+                                        has_junction=any(x in ('J1', 'J2') for x in kinds),
+                                        has_ground_pulse=any(x in ('G1', 'G2') for x in kinds)))
+                break
+    except Exception as e:      # noqa
+        import traceback
+        out['exc'] = repr(e) + traceback.format_exc()[-600:]
+    return out
+
+
 # ------------------------------------------------------------ (B) far-zone relations, true kernel
 
 def farzone_models():
@@ -184,7 +239,7 @@ def jobs(chk, tier):
 def run(tier):
     chk = C.Check(PID, tier, 'model_checking')
     chk.assumptions = [
-        'sub-statement only: the 1 % accuracy of the true kernel integration is NOT decided; part (A) replaces Mininec.psi by a polynomial surrogate kernel in the harness process (calling contract honoured), part (B) uses the true kernel',
+        'part (C) decides the 1 % clause with the true kernel: fields of injected pulse currents and their charges integrated numerically (40-point Gauss-Legendre per straight piece) on the geometry of the SPECIFICATION pulse table, at points 1 .. 40 segment lengths from the nearest conductor or image; part (A) replaces Mininec.psi by a polynomial surrogate kernel in the harness process (calling contract honoured) and checks the assembly on every configuration to rounding, part (B) uses the true kernel on solved antennas',
         'TLC 1.8 on spec/Topology.tla supplies the pulse table; closed-form E / H under the surrogate kernel are evaluated by harness/lattice.py on seeded lattice coordinates, with tapered (unequal) segments in half of the cases',
         'part (B): six solved antennas (straight, bent, branched end-1/end-1, grounded at both ends with sloping wires, lumped and distributed loads) at 1000 wavelengths, 7 directions each']
     for (r, g, _), o in C.parallel_imap(check_record, jobs(chk, tier), chunksize=16):
@@ -201,6 +256,29 @@ def run(tier):
             chk.violation(dict(kind=mm['what'], has_junction=mm.get('has_junction'),
                                has_ground_pulse=mm.get('has_ground_pulse')),
                           dict(input=r['input'], ground=g, info=mm, spec=r))
+    # (C) true kernel: the many-segment records and a seeded sample of the TLC configurations
+    rnd = C.rng('c04-true')
+    tj = [(r, g, C.seed(), k_) for r, g in L.long_records(chk) for k_ in range(4 if tier == 'quick' else 25)]
+    frac = 0.03 if tier == 'quick' else 0.01
+    for r, g, cfg in T.records(chk, 'quick', INVS):
+        if not r.get('reject') and not any(o.get('kind') == 'A' for o in r['input']) and rnd.random() < frac:
+            tj.append((r, g, C.seed(), 0))
+    worst = 0.0
+    npts = 0
+    for j, o in zip(tj, C.parallel_map(true_case, tj, chunksize=4)):
+        if not o['n'] and not o['mism'] and not o['exc']:
+            continue
+        chk.case(dict(true=j[0]['input'], g=j[1], k=j[3]), True,
+                 sample=dict(true_kernel=True, input=j[0]['input'], ground=j[1], points=o['n'], max_deviation=o['maxdev']), n=max(1, o['n']))
+        worst = max(worst, o['maxdev'])
+        npts += o['n']
+        if o['exc']:
+            chk.violation(dict(kind='exception', exc=o['exc'].split('(')[0]), dict(input=j[0]['input'], ground=j[1], exc=o['exc']))
+        for mm in o['mism']:
+            chk.violation(dict(kind=mm['what'], has_junction=mm.get('has_junction'), has_ground_pulse=mm.get('has_ground_pulse')),
+                          dict(input=j[0]['input'], ground=j[1], info=mm, spec=j[0]))
+    chk.cov['true_kernel_points_compared'] = npts
+    chk.cov['true_kernel_worst_deviation'] = worst
     names = [n for n, _ in farzone_models()]
     reps = 1 if tier == 'quick' else 4
     fj = [(n, k, C.seed() + k) for n in names for k in range(reps)]
